@@ -16,7 +16,12 @@ use std::cell::Cell;
 use std::time::{Duration, Instant};
 
 pub const SMALL_STACK: usize = 64 * 1024;
-const SPREAD_LIMIT: usize = 4096;
+/// A constant amount of stack (buffers, large frames) is legitimate; growth with the input is not.
+/// 64 KiB of spread is reached by a growth of 1 byte per level at depth 65,536.
+const SPREAD_LIMIT: usize = 64 * 1024;
+/// A child that overflows the small stack is run again with this one: only a document that still
+/// overflows here counts (8 bytes per level at depth 10^6), a constant need above 64 KiB does not.
+pub const LARGE_STACK: usize = 8 * 1024 * 1024;
 
 /// Character source that counts pulls and records the stack address of a
 /// local at every pull.
@@ -410,27 +415,35 @@ fn deep_jobs(cfg: &Config, total: &mut Report, thorough: bool) {
 			}
 			Err(e) => rep.inconclusive.push(format!("cannot run child: {}", e)),
 			Ok((code, signal, out)) => {
-				let line = out.lines().find(|l| l.starts_with("CHILD-RESULT "));
-				if code != Some(0) || line.is_none() {
+				let mut out = out;
+				let mut line = out.lines().find(|l| l.starts_with("CHILD-RESULT ")).map(|l| l.to_string());
+				if (code != Some(0) || line.is_none()) && out.contains("overflowed its stack") {
+					// the property is about growth, not about the constant: the same document with 8 MiB
+					if let Ok((Some(0), _, out2)) = run_child(k, depth, LARGE_STACK, Duration::from_secs(120)) {
+						if let Some(l2) = out2.lines().find(|l| l.starts_with("CHILD-RESULT ")).map(|l| l.to_string()) {
+							rep.count("children_that_needed_more_than_the_small_stack(noted: constant stack use above 64 KiB)", 1);
+							line = Some(l2);
+							out = out2;
+						}
+					}
+				}
+				let _ = &out;
+				if line.is_none() {
 					let overflow = out.contains("overflowed its stack");
-					// diagnosis: same document with a 1 GiB stack
-					let big = run_child(k, depth, 1 << 30, Duration::from_secs(120));
-					let big_ok = matches!(&big, Ok((Some(0), _, _)));
 					rep.violation(
 						if overflow { "C03:stack-overflow".to_string() } else { format!("C03:child-died:{:?}:{:?}", code, signal) },
 						format!(
-							"{:?} nested {} levels in a {} KiB thread: child exit code {:?} signal {:?}{}; the same document in a 1 GiB stack: {}",
+							"{:?} nested {} levels in a {} KiB thread: child exit code {:?} signal {:?}{}",
 							kind,
 							depth,
 							SMALL_STACK / 1024,
 							code,
 							signal,
-							if overflow { " (stack overflow reported by the runtime)" } else { "" },
-							if big_ok { "completes" } else { "fails too" }
+							if overflow { format!(" (stack overflow reported by the runtime, also with a stack of {} MiB)", LARGE_STACK >> 20) } else { String::new() },
 						),
 						case,
 					);
-				} else if let Ok(j) = serde_json::from_str::<serde_json::Value>(&line.unwrap()["CHILD-RESULT ".len()..]) {
+				} else if let Ok(j) = serde_json::from_str::<serde_json::Value>(&line.clone().unwrap()["CHILD-RESULT ".len()..]) {
 					let want = j["reference_accepts"].as_bool().unwrap_or(false);
 					for (ri, run) in j["runs"].as_array().cloned().unwrap_or_default().iter().enumerate() {
 						if let Some(p) = run.get("panic") {
@@ -648,11 +661,11 @@ pub fn run(cfg: &Config) -> i32 {
 		cfg,
 		EvidenceMeta {
 			id: "C03",
-			rule: "every input is parsed under all four option values with panics captured; text inputs additionally go through a character source that counts pulls and records the stack address at each pull, then Value::traverse is driven to completion; deep documents (14 nested shapes and 12 flat shapes - one lexical element such as a blank, an escape, a digit, an item or an entry repeated that many times - x depths 10^3..10^6, thorough 2*10^6) are parsed, traversed and dismantled in 64 KiB threads inside child processes whose exit status is inspected; non-trivial = non-empty input; random/generated inputs counted by hash, deep documents and corpus edits by construction",
+			rule: "every input is parsed under all four option values with panics captured; text inputs additionally go through a character source that counts pulls and records the stack address at each pull, then Value::traverse is driven to completion; deep documents (14 nested shapes and 12 flat shapes - one lexical element such as a blank, an escape, a digit, an item or an entry repeated that many times - x depths 10^3..10^6, thorough 2*10^6) are parsed, traversed and dismantled in 64 KiB threads inside child processes whose exit status is inspected (an overflow counts when it also happens with 8 MiB); non-trivial = non-empty input; random/generated inputs counted by hash, deep documents and corpus edits by construction",
 			exhaustive: false,
 			assumptions: vec![
 				"dropping a returned deeply nested Value is the caller's business and is done iteratively by the harness; what the parser itself drops (partial values on error paths) is part of the observation".into(),
-				"stack spread limit 4096 bytes: any per-level stack growth of 1 byte shows at depth 10^4 and beyond".into(),
+				"stack spread limit 64 KiB (a constant amount of stack is legitimate): a per-level growth of 1 byte shows at depth 10^5 and beyond; a child that overflows the 64 KiB stack is run again with 8 MiB and only counts if it overflows there too (8 bytes per level at depth 10^6)".into(),
 				"non-termination is decided as bounded progress: no return within 120 s twice, for documents that take < 1 s".into(),
 			],
 			extra: json!({"small_stack_bytes": SMALL_STACK, "spread_limit_bytes": SPREAD_LIMIT}),
@@ -677,7 +690,11 @@ pub fn replay_case(cfg: &Config, case: &serde_json::Value) -> Option<Vec<String>
 			let k = case.get("kind_index").and_then(|x| x.as_u64()).unwrap_or(0) as usize;
 			let d = case.get("depth").and_then(|x| x.as_u64()).unwrap_or(1000) as usize;
 			match run_child(k, d, SMALL_STACK, Duration::from_secs(120)) {
-				Ok((Some(0), _, out)) if out.contains("CHILD-RESULT") => (),
+				Ok((Some(0), _, out)) if out.contains("CHILD-RESULT") && !out.contains("\"panic\"") => (),
+				Ok((_, _, out)) if out.contains("overflowed its stack") => match run_child(k, d, LARGE_STACK, Duration::from_secs(120)) {
+					Ok((Some(0), _, out)) if out.contains("CHILD-RESULT") && !out.contains("\"panic\"") => (),
+					other => rep.violation("C03:replay-deep", format!("child: {:?}", other.map(|x| (x.0, x.1))), case.clone()),
+				},
 				other => rep.violation("C03:replay-deep", format!("child: {:?}", other.map(|x| (x.0, x.1))), case.clone()),
 			}
 		}
